@@ -220,8 +220,8 @@ theorem wire_lSetH (args : List Bytes) : WireRes (Handler2.lSetH args) := by
       apply wgood_call_all
       intro s o
       split
+      · exact wgood_done_tok _ _ tokOK_ok
       · exact wgood_done_tok _ _ rfl
-      · apply wgood_call_all; intro s o; exact wgood_done_tok _ _ tokOK_ok
   · exact wire_errReply
 
 theorem wire_rotateH (left : Bool) (args : List Bytes) : WireRes (Handler2.rotateH left args) := by
@@ -437,12 +437,9 @@ theorem wire_sStoreH (op : MState → Int → List Bytes → Api.R) (all : Bool)
   unfold Handler2.sStoreH
   split
   · intro s now ch
-    dsimp only
     apply wgood_call_all
     intro s o
-    split
-    · exact wgood_done_tok _ _ rfl
-    · apply wgood_call_all; intro s o; exact wgood_done_tok _ _ rfl
+    exact wgood_done_tok _ _ rfl
   · exact wire_errReply
 
 theorem wire_sIsMemberH (args : List Bytes) : WireRes (Handler2.sIsMemberH args) := by
